@@ -1118,7 +1118,7 @@ impl Check for C19 {
         vec![
             Phase { name: "every call sequence of length <= 2 over the argument palette, for each of the 14 builders (19 incl. the key constructors)", cases: 19 * 64, exhaustive: true },
             Phase { name: "every call sequence of length 3 for header / key / claims builders (thorough)", cases: if q { 0 } else { 3 * 64 * 64 }, exhaustive: true },
-            Phase { name: "random call sequences of length <= 12", cases: scale(if q { 60000 } else { 3000000 }, b), exhaustive: false },
+            Phase { name: "random call sequences of length <= 12", cases: scale(if q { 600000 } else { 3000000 }, b), exhaustive: false },
         ]
     }
     fn run_case(&self, ctx: &mut Ctx, phase: usize, idx: u64) {
